@@ -242,13 +242,15 @@ def main(argv):
                 mcs = be.model(i, T, [{"k": ("cxxdec" if is_struct else "cxxview"), "hex": s.hex()} for _, s in uniq])
                 if not isinstance(mcs, list):
                     mcs = None
-            # theorems struct_parser_agrees_with_reference / struct_parser_no_undefined_behaviour: their hypotheses on this
-            # layout (decidable), and the statements evaluated on every input of the run
+            # theorems struct_parser_agrees_with_reference / struct_parser_no_undefined_behaviour (structs) and
+            # view_agrees_with_reference / view_no_undefined_behaviour (packets): their hypotheses on this layout (decidable),
+            # and the statements evaluated on every input of the run
             in_class = False
-            if mcs is not None and is_struct:
+            if mcs is not None:
                 hyp = be.model(i, T, [{"k": "len", "v": {}}])
-                in_class = bool(isinstance(hyp, list) and hyp[0].get("cxxwf") and hyp[0].get("decwf"))
-                run.hist("theorem_hypotheses", "Cxx.wfBody&decWfBody:%s" % in_class)
+                key = "cxxwf" if is_struct else "cxxvwf"
+                in_class = bool(isinstance(hyp, list) and hyp[0].get(key) and hyp[0].get("decwf"))
+                run.hist("theorem_hypotheses", "%s&decWfBody:%s" % ("Cxx.wfBody" if is_struct else "Cxx.vwfBody", in_class))
             for n_s, ((kind, s), m) in enumerate(zip(uniq, mo)):
                 r = be.ask(i, T, "dec", s.hex())
                 if mcs is not None:
@@ -259,9 +261,10 @@ def main(argv):
                     same = (mc.get("r") == "ok") == (m.get("r") == "ok") and mc.get("r") != "panic" and \
                         (mc.get("r") != "ok" or (W.canon(mc.get("value")) == W.canon(m.get("value")) and mc.get("rest") == m.get("rest")))
                     if not same:
-                        run.violation("corr", "theorem struct_parser_agrees_with_reference contradicted by evaluation on %s %s (model bug)" % (T, s.hex()[:40]),
+                        thm = "struct_parser_agrees_with_reference" if is_struct else "view_agrees_with_reference"
+                        run.violation("corr", "theorem %s contradicted by evaluation on %s %s (model bug)" % (thm, T, s.hex()[:40]),
                                       {"pdl": d["text"], "type": T, "input_hex": s.hex(), "model_of_emitted_code": mc, "reference": m,
-                                       "corr": "thm:struct_parser_agrees_with_reference"}, found_input=False)
+                                       "corr": "thm:" + thm}, found_input=False)
                 run.case((d["text"], T, s))
                 run.hist("dec_outcomes", str(r.get("r")) + (":" + str(r.get("e")) if r.get("r") in ("err", "exception") else ""))
                 rep = {"pdl": d["text"], "type": T, "input_hex": s.hex(), "kind": kind, "cxx": r, "reference": m}
